@@ -238,9 +238,9 @@ func c12Hmtx(r *run.Run) {
 	boxes := []funit.Rect16{{}, {LLx: 10, LLy: 0, URx: 400, URy: 700}, {LLx: -32768, LLy: -32768, URx: 32767, URy: 32767}, {LLx: -5, LLy: -200, URx: 600, URy: 10}}
 	maxN := 5
 	if !r.Quick() {
-		maxN = 6
+		maxN = 8
 	}
-	r.Explore(explore.Config{Name: "C12.hmtx"}, "all width vectors of length 1..5 (quick) / 1..6 over {0,500,501} (every constant-tail length) x extents rotation x explicit/implicit LSB; Decode(Encode(x)) == x and hhea derived fields recomputed from their definitions; non-trivial = tail compression applies",
+	r.Explore(explore.Config{Name: "C12.hmtx"}, "all width vectors of length 1..5 (quick) / 1..8 over {0,500,501} (every constant-tail length) x extents rotation x explicit/implicit LSB; Decode(Encode(x)) == x and hhea derived fields recomputed from their definitions; non-trivial = tail compression applies",
 		func(c *explore.Ctx) {
 			n := 1 + c.Choose(maxN, "glyphs")
 			x := &hmtx.Info{Ascent: 800, Descent: -200, LineGap: 10, CaretOffset: 3}
@@ -332,9 +332,9 @@ func c12Hmtx(r *run.Run) {
 
 	lim := 24
 	if !r.Quick() {
-		lim = 64
+		lim = 160
 	}
-	r.Explore(explore.Config{Name: "C12.caret", Bound: 1}, "caret slopes: all coprime (rise, run) with |rise|,|run| <= 24 (quick) / 64 plus 9 extreme fractions with components near 32767; the encoded slope decodes to the same angle, and a slope read from a file is written back as the same fraction", func(c *explore.Ctx) {
+	r.Explore(explore.Config{Name: "C12.caret", Bound: 1}, "caret slopes: all coprime (rise, run) with |rise|,|run| <= 24 (quick) / 160 plus 9 extreme fractions with components near 32767; the encoded slope decodes to the same angle, and a slope read from a file is written back as the same fraction", func(c *explore.Ctx) {
 		rise := c.Choose(2*lim+1, "rise") - lim
 		run := c.Choose(2*lim+1, "run") - lim
 		if rise == 0 && run == 0 || gcd(rise, run) != 1 {
